@@ -357,6 +357,61 @@ fn constructor_routes(rep: &mut Report) {
     }
 }
 
+/// After a refusal: an encode that fails for lack of space, a decode of a truncated message, a decode that fails in a later
+/// attribute and a decode that fails validation - each of a message whose XOR-* address attribute had already been handled -
+/// are followed, on the same thread, by ordinary round trips of messages with other transaction ids (IPv6 and IPv4 XOR-*
+/// addresses, text attributes). A refused call leaves nothing behind that could change the next one.
+fn after_refusals(keyed: &Keyed, rep: &mut Report) {
+    use crate::refs::codec::Addr;
+    let v6a = Addr::V6([0x20, 0x01, 0x0d, 0xb8, 0x12, 0x34, 0x56, 0x78, 0x00, 0x11, 0x22, 0x33, 0x44, 0x55, 0x66, 0x77], 32853);
+    let v6b = Addr::V6([0xfe, 0x80, 0, 0, 0, 0, 0, 0, 0xab, 0xcd, 0xef, 0x01, 0x23, 0x45, 0x67, 0x89], 3478);
+    let v4 = Addr::V4([192, 0, 2, 1], 32853);
+    let tid_a = [0xA1u8, 0xB2, 0xC3, 0xD4, 0xE5, 0xF6, 0x07, 0x18, 0x29, 0x3A, 0x4B, 0x5C];
+    let tid_b = [0x5Du8, 0x11, 0x7F, 0x80, 0x00, 0xFF, 0x3C, 0x42, 0x99, 0x1E, 0x6B, 0xD0];
+    let mut victims: Vec<LMsg> = vec![];
+    for a in [&v6a, &v6b, &v4] {
+        victims.push(menu::lmsg(1, 2, tid_b, vec![L::XorMappedAddress(a.clone())]));
+        victims.push(menu::lmsg(3, 2, tid_b, vec![L::Software("s".into()), L::XorPeerAddress(a.clone()), L::XorRelayedAddress(a.clone())]));
+    }
+    victims.push(menu::lmsg(1, 3, tid_b, vec![L::ErrorCode(401, "x".into()), L::Realm("example.org".into()), L::Nonce("n".into())]));
+    let plain = cu::decoder(cu::Opts::default_ctx(), None);
+    let validating = cu::decoder(cu::Opts { ctx: true, key: true, validation: true, unknown_data: false, not_ignore: false }, Some(keyed.subject));
+    let first = menu::lmsg(1, 2, tid_a, vec![L::XorMappedAddress(v6a.clone()), L::Software("abcdefgh".into())]);
+    let first_bytes = ref_encode(&first, None);
+    let with_fp = ref_encode(&menu::lmsg(1, 2, tid_a, vec![L::XorPeerAddress(v6b.clone()), L::Fp]), None);
+    let refusals: Vec<(&str, Box<dyn Fn() -> bool + '_>)> = vec![
+        ("encode-into-a-short-buffer", Box::new(|| cu::build_msg(&first, None).ok().map(|m| !matches!(cu::encode_into(&m, first_bytes.len() - 2, 0), Ok(Ok(_)))).unwrap_or(false))),
+        ("decode-of-a-truncated-message", Box::new(|| !matches!(cu::decode_with(&plain, &first_bytes[..first_bytes.len() - 3]), Ok(Ok(_))))),
+        ("decode-failing-in-a-later-attribute", Box::new(|| {
+            let mut b = ref_encode(&menu::lmsg(1, 3, tid_a, vec![L::XorMappedAddress(v4.clone()), L::ErrorCode(420, "".into())]), None);
+            let n = b.len();
+            b[n - 2] = 0x07; // error class 7
+            !matches!(cu::decode_with(&plain, &b), Ok(Ok(_)))
+        })),
+        ("decode-failing-validation", Box::new(|| {
+            let mut b = with_fp.clone();
+            let n = b.len();
+            b[n - 1] ^= 0x01;
+            !matches!(cu::decode_with(&validating, &b), Ok(Ok(_)))
+        })),
+    ];
+    for (name, refuse) in &refusals {
+        for v in &victims {
+            if !refuse() {
+                rep.violate(format!("refusal-expected-but-the-call-succeeded/{}", name), "", json!({"refusal": name}));
+                continue;
+            }
+            let before = rep.violations.len();
+            roundtrip(v, None, rep);
+            if rep.violations.len() == before {
+                rep.sym("after-refusals");
+            } else {
+                rep.sym("after-refusals-violation");
+            }
+        }
+    }
+}
+
 pub fn run(ctx: &RunCtx) -> i32 {
     let thorough = ctx.thorough();
     ALL_ENCODER_VARIANTS.store(thorough, std::sync::atomic::Ordering::Relaxed);
@@ -527,6 +582,11 @@ pub fn run(ctx: &RunCtx) -> i32 {
         constructor_routes(&mut r);
         shared.merge(r);
     }
+    {
+        let mut r = Report::new();
+        after_refusals(&keyed, &mut r);
+        shared.merge(r);
+    }
     sweeps.par_iter().for_each(|f| {
         let mut r = Report::new();
         f(&mut r);
@@ -614,7 +674,7 @@ pub fn run(ctx: &RunCtx) -> i32 {
         Finish {
             level: "exploration",
             rule: format!(
-                "every message with 0..=2 body attributes over the {}-entry value menu in every order x 8 tails, every triple over the {}-entry menu x 2 tails, every header of the header menu on singles, full scalar sweeps (u16 fields, error codes 300..=699, 128x512 ICMP, string lengths 0..=509, blob lengths 0..=1024, all 16384 message types, XOR under 123 ids; as non-last and as last attribute: every blob length 0..=1030, every string length, a walking byte through every address byte of all 7 address attributes, every single-bit integer value and its complement, lists of every length 0..=8, UNKNOWN-ATTRIBUTES lists of every length up to 600 and of 1000 / 4096 / 16,384 / 32,760 entries, PASSWORD-ALGORITHMS lists of every length up to 200 and of 1000 / 4096 entries); deep messages without and with the full tail (every reduced-menu value at body offsets around 256 / 1024 / 4096 (thorough: 256..32768 in powers of two) behind one long filler and behind a run of 8-byte attributes, 3..=257 (thorough 1000) copies of 10 attributes, every rotation and reversal of one-value-per-kind, every 4-sequence over 9 kinds); the offset family (PRIORITY, and SOFTWARE + XOR-MAPPED-ADDRESS, behind a filler - one DATA blob or a run of 512-byte SOFTWARE attributes - at every 4-aligned body offset 0..=4200 (thorough 16,400), around every multiple of 4096 (thorough 1024) and at every offset 65,300..=65,532, without and with the full tail, bodies up to the 65,532-byte maximum); XOR-* addresses whose wire form is ::, ::1, ::ffff:a.b.c.d or all ones under 3 ids; every public construction route of the four text attributes (new from &str / String, TryFrom<&str>, <&String>, <String>) on 30-odd texts incl. white space around the text, the quoted forms and the length limits: same verdict, same value, and the message carrying it comes back; clones of the attributes of the encoded message, re-issued under another transaction id, encode to that message's reference bytes; the message obtained from the decoder is encoded again and must give the same bytes (messages without integrity / fingerprint attributes); every message is additionally encoded under another encoder configuration (one encoder object reused for all messages / default context: same bytes; custom padding 0xA5 / random padding: same size, decodes and validates to the same content; quick tier one configuration per message chosen by a hash of its bytes, thorough all four); a case is non-trivial when it was built, encoded, decoded and compared equal (index tuples are distinct by construction)",
+                "every message with 0..=2 body attributes over the {}-entry value menu in every order x 8 tails, every triple over the {}-entry menu x 2 tails, every header of the header menu on singles, full scalar sweeps (u16 fields, error codes 300..=699, 128x512 ICMP, string lengths 0..=509, blob lengths 0..=1024, all 16384 message types, XOR under 123 ids; as non-last and as last attribute: every blob length 0..=1030, every string length, a walking byte through every address byte of all 7 address attributes, every single-bit integer value and its complement, lists of every length 0..=8, UNKNOWN-ATTRIBUTES lists of every length up to 600 and of 1000 / 4096 / 16,384 / 32,760 entries, PASSWORD-ALGORITHMS lists of every length up to 200 and of 1000 / 4096 entries); deep messages without and with the full tail (every reduced-menu value at body offsets around 256 / 1024 / 4096 (thorough: 256..32768 in powers of two) behind one long filler and behind a run of 8-byte attributes, 3..=257 (thorough 1000) copies of 10 attributes, every rotation and reversal of one-value-per-kind, every 4-sequence over 9 kinds); the offset family (PRIORITY, and SOFTWARE + XOR-MAPPED-ADDRESS, behind a filler - one DATA blob or a run of 512-byte SOFTWARE attributes - at every 4-aligned body offset 0..=4200 (thorough 16,400), around every multiple of 4096 (thorough 1024) and at every offset 65,300..=65,532, without and with the full tail, bodies up to the 65,532-byte maximum); XOR-* addresses whose wire form is ::, ::1, ::ffff:a.b.c.d or all ones under 3 ids; every public construction route of the four text attributes (new from &str / String, TryFrom<&str>, <&String>, <String>) on 30-odd texts incl. white space around the text, the quoted forms and the length limits: same verdict, same value, and the message carrying it comes back; round trips right after a refused call on the same thread (short-buffer encode, truncated decode, decode failing in a later attribute / in validation, each of a message whose XOR-* address had already been handled); clones of the attributes of the encoded message, re-issued under another transaction id, encode to that message's reference bytes; the message obtained from the decoder is encoded again and must give the same bytes (messages without integrity / fingerprint attributes); every message is additionally encoded under another encoder configuration (one encoder object reused for all messages / default context: same bytes; custom padding 0xA5 / random padding: same size, decodes and validates to the same content; quick tier one configuration per message chosen by a hash of its bytes, thorough all four); a case is non-trivial when it was built, encoded, decoded and compared equal (index tuples are distinct by construction)",
                 n_full, n_tri
             ),
             assumptions: vec![
@@ -622,7 +682,7 @@ pub fn run(ctx: &RunCtx) -> i32 {
                 "USERNAME is compared after OpaqueString enforcement (hand-written R-strings table)".into(),
                 "PASSWORD-ALGORITHM with empty parameters and with no parameters are the same logical value".into(),
             ],
-            required_symbols: vec!["deep-messages", "offset-family", "xor-special-addresses", "sweep-u16", "sweep-message-types", "sweep-non-last-lengths-addresses-bits-lists", "key-menu", "Nonce", "XorMappedAddress", "Icmp", "constructor-routes"],
+            required_symbols: vec!["deep-messages", "offset-family", "xor-special-addresses", "sweep-u16", "sweep-message-types", "sweep-non-last-lengths-addresses-bits-lists", "key-menu", "Nonce", "XorMappedAddress", "Icmp", "constructor-routes", "after-refusals"],
             min_outcomes: 2,
             exhaustive: true,
             bounds: json!({"L_full_menu": 2, "L_triples_menu": n_tri, "menu": n_full, "tails": 8}),
